@@ -46,6 +46,10 @@ fn main() {
             let a = args[1..].to_vec();
             let _ = run::on_runner_thread(move || orch::rehash(&a));
         }
+        "minimise" => {
+            let a = args[1..].to_vec();
+            let _ = run::on_runner_thread(move || orch::minimise_file(&a));
+        }
         "runplan" => {
             let a = args[1].clone();
             let _ = run::on_runner_thread(move || orch::runplan(&a));
